@@ -289,9 +289,16 @@ class Script:
         self.intent = {}       # op index -> "complete" | "continue" | "deliver"
         self.tokens = {}       # token -> {"kind":..., "headers": [...]}
         self.seq = 0           # predicted Association::seq
+        self.last_unsol = None # the unsolicited fragment the generator expects to have been accepted last
         self.ntok = 0
 
     def rx(self, frag, verdict="ok", items=(), src=ADDR, intent=None):
+        if len(frag) >= 4 and frag[1] == 0x82 and src == ADDR and verdict == "ok":
+            # an unsolicited fragment equal to the one accepted last is a repeat, not a delivery
+            if intent == "deliver" and frag == self.last_unsol:
+                intent = None
+            if intent == "deliver" or len(frag) == 4:
+                self.last_unsol = frag
         if intent:
             self.intent[len(self.ops)] = intent
         self.ops.append(["rx", src, hexs(frag), verdict] + list(items))
